@@ -9,6 +9,8 @@
 (*                    is not configured)                                   *)
 (*   done(k, o)       call k finished with outcome o                       *)
 (*   servers(n)       the client's URL list was replaced (quiescent)       *)
+(*   grow(n)          servers were appended to the URL list, calls possibly *)
+(*                    in flight (least-active)                             *)
 (*   quiesce(actives) no call is in flight; `actives` are the balancer's   *)
 (*                    in-flight counters (empty when it has none);         *)
 (*                    invoked / picks: calls made / picks seen so far      *)
@@ -100,6 +102,11 @@ LBStep(s, e) ==
             IF DOMAIN s.calls # {} \/ s.algo \notin {"rr", "random", "la"} THEN {}
             ELSE {[s EXCEPT !.n = e.n, !.w = [i \in 1..e.n |-> 1], !.ew = [i \in 1..e.n |-> 1],
                             !.served = Zeros(e.n), !.cyc = 0, !.infl = Zeros(e.n), !.cw = Zeros(e.n)]}
+      [] e.ev = "grow" ->      \* servers are appended while calls may be in flight: what is in flight stays counted
+            IF s.algo # "la" \/ e.n < s.n THEN {}
+            ELSE LET ext(f, z) == [i \in 1..e.n |-> IF i <= s.n THEN f[i] ELSE z] IN
+                 {[s EXCEPT !.n = e.n, !.w = ext(s.w, 1), !.ew = ext(s.ew, 1), !.served = ext(s.served, 0),
+                            !.infl = ext(s.infl, 0), !.cw = ext(s.cw, 0)]}
       [] e.ev = "tight" ->      \* a concurrent burst, counted: every call one valid pick, no panic of the balancer
             IF e.valid = e.calls /\ e.invalid = 0 /\ e.panics = 0 THEN {s} ELSE {}
       [] e.ev = "quiesce" ->
